@@ -6,6 +6,7 @@ package totals, with the stats returned by process(), and with a second dump of 
 """
 import copy
 import json
+import os
 
 from vlib import boot, gen, iolab, lab
 
@@ -30,10 +31,58 @@ def gen_cases(tier, seed):
     n = {'quick': 400, 'thorough': 8000}[tier]
     for i in range(n):
         yield {'family': ['csv', 'json'][i % 2] + ['/path', '/zip'][(i // 2) % 2], 'idx': i, 'seed': seed}
+    for i in range(2):
+        yield {'family': 'hashseed', 'idx': 10 ** 6 + i, 'seed': seed}
     # the other documented formats: the recorded numbers must describe those files too
     for i in range({'quick': 24, 'thorough': 400}[tier]):
         yield {'family': ['xlsx', 'geojson', 'excel'][i % 3] + ['/path', '/zip'][(i // 3) % 2], 'idx': n + i, 'seed': seed,
                'pause': i < 4}
+
+
+HASHSEED_SCRIPT = r'''
+import json
+import dataflows as d
+rows = [{'id': i, 'day': '2020-01-0%d' % (i % 3 + 1), 'kind': ['x', 'y', 'z'][i % 3], 'n': '1,5'} for i in range(6)]
+fields = [{'name': 'id', 'type': 'integer'},
+          {'name': 'day', 'type': 'date', 'constraints': {'enum': ['2020-01-01', '2020-01-02', '2020-01-03', '2021-12-31']}},
+          {'name': 'kind', 'type': 'string', 'constraints': {'enum': ['x', 'y', 'z', 'w']}},
+          {'name': 'n', 'type': 'number', 'decimalChar': ',', 'constraints': {'enum': ['1,5', '2,5', '3,5']}}]
+desc = {'resources': [{'name': 'res', 'path': 'res.csv', 'schema': {'fields': fields}}]}
+dp, stats = d.Flow(d.load((desc, [iter(rows)])), d.dump_to_path('hs_out', format='FMT')).process()
+print('RESULT ' + json.dumps({'stats_hash': stats.get('hash'), 'descriptor': open('hs_out/datapackage.json').read()}))
+'''
+
+
+def run_hashseed(case):
+    """The same dump in two interpreter processes whose string hashing differs (PYTHONHASHSEED): same numbers, same
+    descriptor bytes."""
+    import subprocess
+    counters = {'files_measured': 0, 'stats_compared': 0}
+    fmt = ['csv', 'json'][case['idx'] % 2]
+    outs = []
+    for hs in ('1', '2', '77'):
+        env = dict(os.environ, PYTHONPATH=boot.REPO, PYTHONHASHSEED=hs)
+        try:
+            p = subprocess.run([boot.PY, '-W', 'ignore', '-c', HASHSEED_SCRIPT.replace('FMT', fmt)], capture_output=True, text=True,
+                               timeout=120, env=env, cwd=os.getcwd())
+        except subprocess.TimeoutExpired:
+            return dict(nontrivial=False, violations=[], counters=counters, cov={'config': {}}, inconclusive='subprocess timed out')
+        line = next((ln for ln in p.stdout.splitlines() if ln.startswith('RESULT ')), None)
+        if line is None:
+            return dict(nontrivial=False, violations=[], counters=counters, cov={'config': {}},
+                        inconclusive='no result from the subprocess: %s' % p.stderr[-300:])
+        outs.append(json.loads(line[7:]))
+        import shutil
+        shutil.rmtree('hs_out', ignore_errors=True)
+    counters['files_measured'] += 3
+    counters['stats_compared'] += 3
+    viol = []
+    if any(o != outs[0] for o in outs[1:]):
+        viol.append({'kind': 'hash_unstable', 'mech': 'hash_unstable/%s/hashseed' % fmt, 'config': {'format': fmt},
+                     'msg': 'the same dump in processes with PYTHONHASHSEED=1/2/77 gives different package hashes / descriptors: %r'
+                     % [o['stats_hash'] for o in outs]})
+    return dict(nontrivial=True, violations=viol, counters=counters,
+                cov={'config': {'%s/path/interpreter_hash_seeds' % fmt: 1}}, sample={'format': fmt})
 
 
 def get_attr(obj, prop):
@@ -56,6 +105,7 @@ COUNTER_SETS = {
                'resource-bytes': 'stats.size.bytes', 'resource-hash': 'stats.hash'},
     'no_rowcount': {'datapackage-rowcount': None, 'resource-rowcount': None},
     'no_bytes': {'datapackage-bytes': None, 'resource-bytes': None},
+    'no_res_rowcount': {'resource-rowcount': None},        # (the package total does not depend on the per-resource counter)
     'no_pkg_hash': {'datapackage-hash': None},
     'no_res_hash': {'resource-hash': None},
 }
@@ -88,6 +138,8 @@ def xlsx_equal_but_for_timestamps(a, b):
 
 
 def run_case(case):
+    if case['family'] == 'hashseed':
+        return run_hashseed(case)
     rng = boot.rng(case['seed'], 'C09', case['idx'])
     d = lab.df()
     fmt, kind = case['family'].split('/')
